@@ -86,7 +86,7 @@ def judge_once(traces, rep):
     try:
         path = os.path.join(scratch, 'traces.json')
         with open(path, 'w') as f:
-            json.dump([{'id': t['id'], 'events': t['events']} for t in traces], f)
+            json.dump([{'id': t['id'], 'events': t['events'], 'perprocess': t.get('perprocess', [])} for t in traces], f)
         r = tlc.run('OnceMonitor', cfg_text='SPECIFICATION Spec\nCONSTRAINT Book\nPOSTCONDITION Verdicts\nCHECK_DEADLOCK FALSE\n', workers=1,
                     env={'TRACE_FILE': path}, timeout=1200)
     finally:
